@@ -68,7 +68,8 @@ def run_book(ctx, items):
     for (eng, d, x, inv, ev), h, nm in zip(items, H, N):
         idx = {kv.split("=", 1)[1]: int(kv.split("=", 1)[0][1:]) for kv in nm.split(" ") if kv.startswith("S")}
         acts, outs = acts_from_trace(h.split(" "), idx)
-        reqs.append("%d\t%s\t%s" % (len(idx), ",".join(str(idx[i]) for i in inv if i in idx) or "-", " ".join(acts)))
+        nstates = sum(1 for kv in nm.split(" ") if kv.startswith("S"))      # ids may repeat (pseudo-states): count entries
+        reqs.append("%d\t%s\t%s" % (nstates, ",".join(str(idx[i]) for i in inv if i in idx) or "-", " ".join(acts)))
         real.append(outs)
     M = ctx.driver_lines("invoke", reqs, timeout=1800)
     return H, real, [m.split(" ") if m else [] for m in M]
@@ -105,24 +106,137 @@ def suite_book(ctx, n):
     ctx.sample({"suite": "invoke-bookkeeping", "document": items[0][2][:600], "events": items[0][4]})
 
 
+# ------------------------------------------------------------------ suite: invoke-threads
+NS = 'xmlns="http://www.w3.org/2005/07/scxml" version="1.0" datamodel="null"'
+
+
+def scenario(rng):
+    """-> (name, parent document, api operations, oracle(tokens) -> None | reason)"""
+    k = rng.choice(["finishes", "never", "on-event", "ticks", "autoforward", "finalize", "to-child", "reenter"])
+    blk = lambda n: ",".join(["b:%d" % rng.choice([5, 20, 40]), "q"] * n)
+    if k == "finishes":        # the child reaches its final state at once: done.invoke exactly once
+        child = '<scxml %s><final id="f"/></scxml>' % NS
+        doc = ('<scxml %s><state id="a"><invoke type="scxml" id="c1"><content>%s</content></invoke><transition event="done.invoke.c1" target="b"/></state>'
+               '<state id="b"><transition event="done.invoke" target="dup"/></state><state id="dup"/></scxml>' % (NS, child))
+        ops = "q,%s,w:%d,q" % (blk(3), rng.choice([10, 60]))
+        def oracle(t):
+            n = t.count("bpe:done.invoke.c1")
+            if n != 1: return "done.invoke.c1 was processed %d times, the child finished on its own" % n
+            if not t[-2].startswith("cfg:") or "b" not in t[-2][4:].split(","): return "parent did not end in state b: %s" % t[-2]
+    elif k == "never":         # the child never finishes and the parent leaves: no done.invoke
+        child = '<scxml %s><state id="s"/></scxml>' % NS
+        doc = ('<scxml %s><state id="a"><invoke type="scxml" id="c1"><content>%s</content></invoke><transition event="leave" target="b"/></state>'
+               '<state id="b"><transition event="done.invoke" target="bad"/></state><state id="bad"/></scxml>' % (NS, child))
+        ops = "q,%s,e:leave,q,w:60,q" % blk(rng.randint(0, 2))
+        def oracle(t):
+            if any(x.startswith("bpe:done.invoke") for x in t): return "done.invoke for a child that was cancelled and never reached a final state"
+            if t.count("bu:c1") != 1: return "the invocation was cancelled %d times" % t.count("bu:c1")
+    elif k == "on-event":      # the child finishes when the parent tells it to (#_c1)
+        child = '<scxml %s><state id="s"><transition event="stop" target="f"/></state><final id="f"/></scxml>' % NS
+        doc = ('<scxml %s><state id="a"><invoke type="scxml" id="c1"><content>%s</content></invoke><transition event="go"><send target="#_c1" event="stop"/></transition>'
+               '<transition event="done.invoke.c1" target="b"/></state><state id="b"/></scxml>' % (NS, child))
+        ops = "q,%s,e:go,q,%s,w:50,q" % (blk(1), blk(3))
+        def oracle(t):
+            if t.count("bpe:done.invoke.c1") != 1: return "done.invoke.c1 processed %d times after the child was told to finish" % t.count("bpe:done.invoke.c1")
+    elif k == "ticks":         # the child keeps sending; after the cancellation returned nothing new may arrive
+        child = ('<scxml %s><state id="s"><onentry><send event="t" delay="5ms"/><send target="#_parent" event="c.1"/><send target="#_parent" event="c.2"/><send target="#_parent" event="c.3"/></onentry>'
+                 '<transition event="t"><send event="t" delay="5ms"/><send target="#_parent" event="tick"/></transition></state></scxml>' % NS)
+        doc = ('<scxml %s><state id="a"><invoke type="scxml" id="c1"><content>%s</content></invoke><transition event="leave" target="b"/><transition event="c"/><transition event="tick"/></state>'
+               '<state id="b"><transition event="tick"/></state></scxml>' % (NS, child))
+        ops = "q,%s,e:leave,q,w:120,q,g,w:150,q" % blk(rng.randint(1, 3))
+        def oracle(t):
+            cs = [x for x in t if x.startswith("bpe:c.")]
+            if cs != ["bpe:c.1", "bpe:c.2", "bpe:c.3"]: return "the child's events arrived as %s" % cs
+            k2 = t.index("state:IDLE") if "state:IDLE" in t else len(t)
+            if any(x == "bpe:tick" for x in t[k2:]): return "an event of the cancelled child was processed long after the cancellation had returned"
+    elif k == "autoforward":   # the parent's external events reach the child in order
+        child = ('<scxml %s><state id="s"><transition event="e1"><send target="#_parent" event="echo.e1"/></transition><transition event="e2"><send target="#_parent" event="echo.e2"/></transition></state></scxml>' % NS)
+        doc = ('<scxml %s><state id="a"><invoke type="scxml" id="c1" autoforward="true"><content>%s</content></invoke><transition event="echo"/><transition event="e1"/><transition event="e2"/></state></scxml>' % (NS, child))
+        ops = "q,%s,e:e1,e:e2,e:e1,q,%s,w:60,q" % (blk(1), blk(3))
+        def oracle(t):
+            es = [x for x in t if x.startswith("bpe:echo.")]
+            if es != ["bpe:echo.e1", "bpe:echo.e2", "bpe:echo.e1"]: return "autoforwarded events came back as %s" % es
+    elif k == "finalize":      # finalize runs before the child's event is matched
+        child = '<scxml %s><state id="s"><onentry><send target="#_parent" event="c.1"/></onentry></state></scxml>' % NS
+        doc = ('<scxml %s><state id="a"><invoke type="scxml" id="c1"><content>%s</content><finalize><log label="FIN"/></finalize></invoke>'
+               '<transition event="c.1"><log label="TRANS"/></transition></state></scxml>' % (NS, child))
+        ops = "q,%s,w:40,q" % blk(3)
+        def oracle(t):
+            # finalize is run when the event is taken from the queue (before the monitors hear of it): what the
+            # property fixes is its order relative to the transition that matches the event
+            ls = [x for x in t if x in ("log:FIN", "log:TRANS")]
+            if ls != ["log:FIN", "log:TRANS"] or t.count("bpe:c.1") != 1: return "finalize / transition order for the child's event: %s" % [x for x in t if x in ("log:FIN", "log:TRANS", "bpe:c.1")]
+    elif k == "to-child":      # #_<invokeid> reaches the child, its answers keep the order
+        child = ('<scxml %s><state id="s"><transition event="p1"><send target="#_parent" event="r.1"/></transition><transition event="p2"><send target="#_parent" event="r.2"/></transition></state></scxml>' % NS)
+        doc = ('<scxml %s><state id="a"><invoke type="scxml" id="c1"><content>%s</content></invoke><transition event="go"><send target="#_c1" event="p1"/><send target="#_c1" event="p2"/><send target="#_c1" event="p1"/></transition><transition event="r"/></state></scxml>' % (NS, child))
+        ops = "q,%s,e:go,q,%s,w:60,q" % (blk(1), blk(3))
+        def oracle(t):
+            rs = [x for x in t if x.startswith("bpe:r.")]
+            if rs != ["bpe:r.1", "bpe:r.2", "bpe:r.1"]: return "answers of the child: %s" % rs
+    else:                      # exit and re-entry: the old child is cancelled, a new one started, each once
+        child = '<scxml %s><state id="s"><onentry><send target="#_parent" event="hello"/></onentry></state></scxml>' % NS
+        doc = ('<scxml %s><state id="a"><invoke type="scxml" id="c1"><content>%s</content></invoke><transition event="again" target="a"/><transition event="hello"/></state></scxml>' % (NS, child))
+        ops = "q,%s,e:again,q,%s,w:60,q" % (blk(2), blk(3))
+        def oracle(t):
+            if t.count("bi:c1") != 2 or t.count("bu:c1") != 1 + (1 if "destroyed" in t else 0) - (1 if "destroyed" in t else 0):
+                return "invocations started %d times, cancelled %d times" % (t.count("bi:c1"), t.count("bu:c1"))
+            if t.count("bpe:hello") != 2: return "each of the two child sessions says hello once, the parent processed %d" % t.count("bpe:hello")
+    return k, doc, ops, oracle
+
+
+def suite_threads(ctx, n):
+    rng = ctx.rng
+    cases = [scenario(rng) + (rng.choice(["large", "fast"]),) for _ in range(n)]
+    lines = ["%s\t-\t%s\t%s" % (eng, ops, hexs(doc)) for (k, doc, ops, oracle, eng) in cases]
+    parts = list(chunks(lines, max(1, (len(lines) + 7) // 8)))
+    def work(part):
+        rc, h, err = ctx.harness_lines("api", part, variant="tsan", timeout=3600, env={"TSAN_OPTIONS": "halt_on_error=1 exitcode=66"})
+        if rc != 0 or len(h) != len(part): raise BrokenTie("harness", "uvharness api rc=%s" % rc)
+        return h
+    with ThreadPoolExecutor(8) as ex: H = [x for part in ex.map(work, parts) for x in part]
+    st = dict(inputs=len(cases), ok=0, violations=0, per_scenario={})
+    for (k, doc, ops, oracle, eng), l, h in zip(cases, lines, H):
+        t = h.split(" ")
+        st["per_scenario"][k] = st["per_scenario"].get(k, 0) + 1
+        bad = [x for x in t if x.startswith(("CRASH", "EXIT", "EXC"))]
+        why = None
+        if bad: why = "ThreadSanitizer reported a data race" if "EXIT:66" in bad else ("did not return within the watchdog (dead-lock)" if "CRASH:14" in bad else "abnormal end " + bad[0])
+        elif t[-1] != "end": why = "did not reach the end"
+        else: why = oracle(t)
+        if why is None:
+            st["ok"] += 1
+            continue
+        st["violations"] += 1
+        if len(ctx.violations) < 4:
+            ctx.violation("threads-%d" % len(ctx.violations), "invoke-threads", [l],
+                          detail="scenario %s, engine %s, operations %s: %s\ntrace (events/invocations): %s\ndocument: %s" %
+                                 (k, eng, ops, why, " ".join(x for x in t if x.startswith(("bpe:", "bi:", "bu:", "log:", "state:")))[:600], doc))
+    ctx.add_suite("invoke-threads", **st)
+
+
 def run(ctx):
-    ctx.setup(variants=("asan",))
+    ctx.setup(variants=("asan", "tsan"))
     ctx.audit(THEOREMS, LEAN_FILES)
     quick = ctx.tier == "quick"
     suite_book(ctx, 300 if quick else 8000)
+    suite_threads(ctx, 64 if quick else 2000)
     s1 = ctx.coverage["suites"]["invoke-bookkeeping"]
-    ctx.coverage["evaluations"] = s1["inputs"]
+    ctx.coverage["evaluations"] = s1["inputs"] + ctx.coverage["suites"]["invoke-threads"]["inputs"]
     ctx.coverage["distinct_nontrivial"] = s1["invocations"]
     ctx.coverage["rule"] = ("random charts of 3-8 states (finals with p=0.35 so that runs finish, loops so that invoking states are left and re-entered) in which 40% of the proper states invoke an idle child session, "
-                            "x 1-5 external events, both engines, ASan build; non-trivial = invocations started")
+                            "x 1-5 external events, both engines, ASan build; non-trivial = invocations started; plus 8 parent/child scenarios with real child sessions (child finishing at once / on request / never, "
+                            "a child that keeps sending, autoforward, finalize, #_<invokeid>, exit and re-entry) with randomised blocking steps and waits on the ThreadSanitizer build")
     ctx.assumptions += ["the exits/entries/stable-configuration notices of the monitor trace are taken as the history the bookkeeping reacts to (they are what C13 checks for nesting and completeness)"]
 
 
 def replay(ctx, path):
-    ctx.setup(variants=("asan",))
+    ctx.setup(variants=("asan", "tsan"))
     for line in open(path):
         if "\t" not in line or line.startswith(("#", "property=")): continue
         f = line.rstrip("\n").split("\t")
+        if f[1] == "-":
+            rc, h, err = ctx.harness_lines("api", [line.rstrip("\n")], variant="tsan", env={"TSAN_OPTIONS": "exitcode=66"})
+            print("I:", h[0][:3000]); print(err[-3000:]); continue
         d = charts.from_sexpr(f[1]); x = bytes.fromhex(f[3]).decode()
         inv = re.findall(r'id="inv_([^"]+)"', x)
         H, R, M = run_book(ctx, [(f[0], d, x, inv, [] if f[2] == "-" else f[2].split(","))])
